@@ -13,6 +13,22 @@ CLAIMED = {
             "correspondence run, dyadic penalties so floats are exact); harness/driver encoding.",
             "Lean 4 proof over hand-written model + differential correspondence"),
 }
+GEN_NOTE = ("Trusted: Lean kernel + {propext, Classical.choice, Quot.sound} (audited per theorem on every run); the hand "
+            "translation Python -> Lean (validated by the differential correspondence run on dyadic penalties, where float "
+            "arithmetic is exact); harness / driver encoding. See DESIGN.md section 4.")
+TECH = "Lean 4 proof over hand-written model + differential correspondence"
+CLAIMED.update({
+    "C01": ("DESIGN.md 6/C01", "Lean 4 theorems: the model of the n log n routine (prefix sums + merge-sort inversion counting) "
+            "returns exactly the pairwise-penalty definition for every valid scheme, dataset and candidate, and refuses "
+            "incomplete candidates (C01_score, C01_counts, C01_refuse, C01_holds); tied to the code by comparing refusal, "
+            "score and the per-ranking count vectors.", GEN_NOTE, TECH),
+    "C19": ("DESIGN.md 6/C19", "Lean 4 theorems: constructor accepts exactly the documented inputs with the documented "
+            "exception (over a PyVal ADT), scaling, homogeneity of the Kemeny score, equivalence = proportionality on both "
+            "vectors, nickname; tied to the code on well-formed, malformed and near-miss streams.", GEN_NOTE, TECH),
+    "C20": ("DESIGN.md 6/C20", "Lean 4 theorems: every Markov move, step and walk (all draw sequences) preserves the dense "
+            "bucket numbering; conversion yields non-empty disjoint buckets; complete mode delivers m complete rankings; "
+            "tied to the code per single step with a scripted random source.", GEN_NOTE + " The random module is scripted.", TECH),
+})
 NOT_YET = "model/theorems not built yet in this round (work in progress; see DESIGN.md section 9)"
 
 checks = []
